@@ -41,4 +41,16 @@ PROPS = {
         "guards": ["some-accepted", "replay-of-accepted", "reload-between", "boundary-instant"],
         "parts": [{"engine": "front", "test": "TestProp_C09_Replay", "quick": 1500, "thorough": 120000}],
     },
+    "C11": {
+        "rule": "configs as text: global pull_api tokens (0-3), per-route pull tokens (0-3) on 1-3 pull routes, admin tokens (0-2), separate / prefixed / shared "
+                "listener topologies, including configs that must not compile (a pull route with neither own nor global tokens); requests over Pull HTTP "
+                "(handler from startServers), Worker gRPC methods (metadata context) and every Admin endpoint, with credentials absent / exact / scheme "
+                "variants / near-miss tokens (prefix, suffix, case, NUL, inner space, other route's, global against an overriding route) / multiple values; "
+                "must-reject when no presented value is a bearer token of the effective allowlist under the most lenient reading (=> 401/Unauthenticated, "
+                "queue unchanged, no items), must-accept for exactly 'Bearer T'; everything else unspecified; non-trivial = a near-miss credential or a "
+                "config with an empty allowlist",
+        "assumptions": [SAMPLED, "the Worker server is wired in the harness exactly as startServers wires it (real gRPC transport over TCP is not used)"],
+        "guards": ["must-reject", "must-accept", "api-pull", "api-worker", "api-admin", "config-with-empty-allowlist"],
+        "parts": [{"engine": "front", "test": "TestProp_C11_Authz", "quick": 3000, "thorough": 300000}],
+    },
 }
